@@ -526,14 +526,36 @@ register(Unit('formats.table.load_file.written', TAB, 'load_file', _load_file_wr
 # formats.table.dump_file.chars: the real dump_file, its lines read in the TEXT theory, read back by the load_file contract
 
 def cell_symbols():
-    """[source] the two cell texts of dump_file: the ONE conditional expression `<text> if b else <text>` of its body (checked by the run: the
-    loop body must print exactly the line built from them)"""
+    """[source] the two cell texts of dump_file, read from the ONE expression of its body that chooses between two literal texts by a
+    truth value: the conditional `<text> if b else <text>`, or the pair indexed by a bool `(<false text>, <true text>)[bool(b)]`
+    (checked by the run: the loop body must print exactly the line built from them, so a wrong reading can only lose obligations).
+    -> (text of a true cell, text of a false cell)"""
     x = extract.get_function(TAB, 'dump_file')
-    found = [nd for nd in ast.walk(x.node) if isinstance(nd, ast.IfExp) and isinstance(nd.body, ast.Constant) and isinstance(nd.orelse, ast.Constant)
-             and isinstance(nd.body.value, str) and isinstance(nd.orelse.value, str)]
+    # the text of dump_file and of the module-level helpers it calls (the engine executes them in place: an extracted row generator)
+    _, tree = extract.parse_file(TAB)
+    helpers = {st.name: st for st in tree.body if isinstance(st, ast.FunctionDef)}
+    nodes, todo = [], [x.node]
+    while todo:
+        fn = todo.pop()
+        if any(fn is n_ for n_ in nodes):
+            continue
+        nodes.append(fn)
+        for nd in ast.walk(fn):
+            if isinstance(nd, ast.Call) and isinstance(nd.func, ast.Name) and nd.func.id in helpers and nd.func.id != 'dump_file':
+                todo.append(helpers[nd.func.id])
+
+    def text_const(nd):
+        return isinstance(nd, ast.Constant) and isinstance(nd.value, str)
+    found = []
+    for nd in (n_ for fn in nodes for n_ in ast.walk(fn)):
+        if isinstance(nd, ast.IfExp) and text_const(nd.body) and text_const(nd.orelse):
+            found.append((nd.body.value, nd.orelse.value))
+        elif isinstance(nd, ast.Subscript) and isinstance(nd.value, ast.Tuple) and len(nd.value.elts) == 2 \
+                and all(text_const(e) for e in nd.value.elts) and not isinstance(nd.slice, ast.Slice):
+            found.append((nd.value.elts[1].value, nd.value.elts[0].value))
     if len(found) != 1:
-        raise Unsupported('dump_file: expected one conditional expression choosing between two cell texts, found %d' % len(found))
-    return found[0].body.value, found[0].orelse.value
+        raise Unsupported('dump_file: expected one expression choosing between two cell texts, found %d' % len(found))
+    return found[0]
 
 
 def read_pct(val):
